@@ -839,3 +839,35 @@ def t_continue_flag(facts, res, tier):
     t = expr_text(dw["body"]).replace(" ", "")
     if not re.search(r"ifself\.loops\.last\(\)\.unwrap\(\)\.2\{self\.label\(dowhilecondition_label\)", t):
         res.fail(key, facts.where(dw), "generate_do_while does not define its continue label when (and only when) a continue was seen")
+
+
+@rule("T-LOOP-EXIT-SIBLINGS", floor=2,
+      text="the `if (c) break;` / `if (c) continue;` shortcuts of generate_if make the same validity checks as generate_break / generate_continue before branching to a loop label: no enclosing construct -> error, and for continue an empty continue label (switch outside any loop) -> error; otherwise a branch to the empty label is emitted and the branch checker panics")
+def t_loop_exit_siblings(facts, res, tier):
+    gi = facts.fn("generate_if", GEN_QUAL)
+    gc = facts.fn("generate_continue", GEN_QUAL)
+    gb = facts.fn("generate_break", GEN_QUAL)
+    def checks(node):
+        t = expr_text(node).replace(" ", "")
+        return {"none": "None=>" in t and "returnErr" in t.split("None=>", 1)[1][:200] if "None=>" in t else False,
+                "empty": ".is_empty()" in t and "returnErr" in t}
+    ref_c = checks(gc["body"])
+    ref_b = checks(gb["body"])
+    arms = {}
+    for m in walk(gi["body"]):
+        if m.get("k") == "match":
+            for arm in m["arms"]:
+                pt = pat_text(arm["pat"])
+                if pt in ("Statement::Break", "Statement::Continue"):
+                    arms[pt] = arm["body"]
+    if set(arms) != {"Statement::Break", "Statement::Continue"}:
+        raise AnchorMissing("generate_if: break/continue shortcut arms not found")
+    for pt, ref, sib in (("Statement::Break", ref_b, "generate_break"), ("Statement::Continue", ref_c, "generate_continue")):
+        got = checks(arms[pt])
+        key = "T-LOOP-EXIT-SIBLINGS:%s" % pt.split("::")[1]
+        res.inst(key, True, {"shortcut": got, sib: ref})
+        for what in ("none", "empty"):
+            if ref[what] and not got[what]:
+                res.fail(key, facts.where(gi, arms[pt]), "the `if (c) %s;` shortcut in generate_if does not reject %s, which %s does: `if (c) %s;` %s emits a branch to a label that does not exist (the branch checker then panics)" % (
+                    pt.split("::")[1].lower(), "a missing enclosing loop" if what == "none" else "an empty continue label", sib, pt.split("::")[1].lower(),
+                    "outside any loop" if what == "none" else "inside a switch that is not inside a loop"))
